@@ -38,9 +38,6 @@ def apply(ctx, W):
     ])
 
     vf = W.file("semantic/type_definition/vftable.rs")
-    fn_into_verus(ctx, vf, "build_type", mode="T", ret="r", tags=("C02", "C04", "C06", "C14"), ensures=[
-        "match vft_path(*resolvee_path) { None => r is None, Some(vp) => r is Some && r->0.path == vp }",
-    ])
     fn, u = fn_into_verus(ctx, vf, "get_region_name_and_vftable", ret="res", tags=("C06", "C12"), ensures=[
         ("""match base_vftable_of(type_registry, Some(*region)) {
             None => res is Err,
